@@ -277,6 +277,25 @@ theorem router_inv (ops : List ROp) (f : Nat) : ∀ q : Queues,
           simp [hf, tagsFor, hgf]
         · simp [hf, expectedQueue, hne]
 
+/-! ### router read loop -/
+
+/-- the packets among the read results, as router operations -/
+def okOps : List (Except Err Packet) → List ROp
+  | [] => []
+  | .ok p :: rest => .pkt p.fn (pktTag p) :: okOps rest
+  | .error _ :: rest => okOps rest
+
+theorem routerReads_all_caught (handlers : List String) (hall : handlers.contains "Exception" = true) :
+    ∀ (reads : List (Except Err Packet)) (q : Queues),
+      routerReads handlers reads q = ((okOps reads).foldl routerStep q, true)
+  | [], q => rfl
+  | .ok p :: rest, q => by
+    simp only [routerReads, okOps, List.foldl_cons]
+    exact routerReads_all_caught handlers hall rest _
+  | .error e :: rest, q => by
+    simp only [routerReads, okOps, handlerCatches, hall, Bool.true_or, if_true]
+    exact routerReads_all_caught handlers hall rest q
+
 /-! ### CRTP header fields (finite: all 256 header bytes) -/
 
 theorem crtp_fields : ∀ h : Fin 256, Gen.C18.crtpHeaderExpr h.val = (h.val ||| 0x0C) ∧
